@@ -637,8 +637,8 @@ def make_converter(full: bool, dv: bool, strat: str, forbid=False):
 
 def ccfg(full, dv, strat, forbid, flags):
     b = lambda x: "true" if x else "false"
-    return ("{| c_gen := %s; c_dv := %s; c_tuple := %s; c_forbid := %s; c_recheck := %s; c_kw_last := %s |}"
-            % (b(full), b(dv), b(strat == "tuple"), b(forbid and full), b(flags.get("recheck", True)), b(flags.get("kw_last", True))))
+    return ("{| c_gen := %s; c_dv := %s; c_tuple := %s; c_forbid := %s; c_recheck := %s; c_kw_last := %s; c_tuple_kw := %s |}"
+            % (b(full), b(dv), b(strat == "tuple"), b(forbid and full), b(flags.get("recheck", True)), b(flags.get("kw_last", True)), b(flags.get("tuple_kw", False))))
 
 
 def xclass(e):
